@@ -5,6 +5,7 @@ import DriverLib.C02
 import DriverLib.C04
 import DriverLib.C05
 import DriverLib.C08
+import DriverLib.C09
 import DriverLib.C10
 import DriverLib.C11
 import DriverLib.C12
@@ -21,6 +22,7 @@ def handlers : List (String → Json → Option R) := [
   Drv.C04.handle,
   Drv.C05.handle,
   Drv.C08.handle,
+  Drv.C09.handle,
   Drv.C10.handle,
   Drv.C11.handle,
   Drv.C12.handle,
